@@ -974,4 +974,188 @@ Section WP.
     intros (A1 & A2 & A3 & A4 & A5 & A6 & A7) (B1 & B2 & B3 & B4 & B5 & B6 & B7).
     repeat split; try congruence. intros K. rewrite A7, B7 by exact K. reflexivity.
   Qed.
+
+  (* ---------------------------------------------------------------- *)
+  (* partial first and last year (multi-year layouts): the series may begin on any day of the
+     start year and end on any day of a later year                                            *)
+
+  (* slot j holds the days a..b of year y, MaxYearDays = b *)
+  Definition part_slot (st : store) (j : nat) (y a b : Z) : Prop :=
+    s_jar (slot_at st j) = y /\ maxd_at st j = b /\
+    forall d, a <= d <= b -> cell st j (Z.to_nat (d - 1)) = raw y d.
+
+  Lemma year_part_slot st j y : year_slot st j y -> part_slot st j y 1 (ylen y).
+  Proof. intros H. exact H. Qed.
+
+  Lemma finish_part none corr yrz (st : store) j y a b :
+    wf st -> (yrz <= length st)%nat -> (j < yrz)%nat -> 1 <= a -> part_slot st j y a b ->
+    let st' := transform corr yrz (replace_missing none yrz st) in
+    s_jar (slot_at st' j) = y /\ maxd_at st' j = b /\ length (s_cells (slot_at st' j)) = 366%nat /\
+    forall d, a <= d <= b -> normalised none corr y d (raw y d) (cell st' j (Z.to_nat (d - 1))).
+  Proof.
+    intros W L Hj Ha (Yj & Ym & Yc) st'.
+    set (st1 := replace_missing none yrz st).
+    assert (W1 : wf st1) by (apply replace_wf; exact W).
+    assert (L1 : (yrz <= length st1)%nat) by (unfold st1; rewrite replace_length; exact L).
+    assert (M1 : maxd_at st1 j = b) by (unfold st1; rewrite replace_maxd; exact Ym).
+    assert (J1 : s_jar (slot_at st1 j) = y) by (unfold st1; rewrite replace_jar; exact Yj).
+    assert (TS : slot_at st' j = tslot corr (slot_at st1 j)).
+    { unfold st'. fold st1. rewrite transform_slot by exact L1.
+      replace (j <? yrz)%nat with true by (symmetry; apply Nat.ltb_lt; exact Hj). reflexivity. }
+    split; [|split; [|split]].
+    - rewrite TS. unfold tslot; cbn [s_jar]. exact J1.
+    - unfold maxd_at. rewrite TS. unfold tslot; cbn [s_maxd]. exact M1.
+    - unfold st'. fold st1. rewrite transform_cells_len by exact L1. apply (W1 j). lia.
+    - intros d Hd. set (i := Z.to_nat (d - 1)).
+      assert (Hi : (i < Z.to_nat (maxd_at st j))%nat) by (unfold i; lia).
+      destruct (transform_cell corr yrz st1 j i W1 L1 Hj ltac:(unfold i; lia)) as (A & _ & _).
+      unfold st'. fold st1. rewrite A, J1.
+      destruct (replace_fields none yrz st j i W L Hj Hi) as (F1 & F2 & F3 & F4 & F5 & F6 & F7).
+      fold st1 in F1, F2, F3, F4, F5, F6, F7. unfold i in F1, F2, F3, F4, F5, F6, F7. rewrite (Yc d Hd) in *. fold i in F1, F2, F3, F4, F5, F6, F7.
+      unfold normalised, norm_cell.
+      set (c := cell st1 j i) in *.
+      assert (Ew : forall r : wrec, w_wind (if ltb (w_wind r) half then set_wind r half else r)
+                                    = if ltb (w_wind r) half then half else w_wind r).
+      { intros r. destruct (ltb (w_wind r) half); reflexivity. }
+      assert (Ef : forall (r : wrec) (f : wrec -> T), (f (set_wind r half) = f r) ->
+                   f (if ltb (w_wind r) half then set_wind r half else r) = f r).
+      { intros r f Hf. destruct (ltb (w_wind r) half); [exact Hf | reflexivity]. }
+      repeat split.
+      + rewrite (Ef _ w_tmin) by reflexivity. cbn. exact F1.
+      + rewrite (Ef _ w_tmax) by reflexivity. cbn. exact F2.
+      + rewrite (Ef _ w_rh) by reflexivity. cbn. exact F3.
+      + rewrite Ew. cbn. rewrite F4. reflexivity.
+      + rewrite (Ef _ w_rad) by reflexivity. cbn. rewrite F5. reflexivity.
+      + rewrite (Ef _ w_prec) by reflexivity. cbn. rewrite F6. reflexivity.
+      + intros K. rewrite (Ef _ w_tavg) by reflexivity. cbn. apply F7. exact K.
+  Qed.
+
+  (* complete years with enough slots, followed by further input *)
+  Lemma rm_years_rest sy n : forall y Tv yrz (st : store) rest,
+    wf st -> sy <= y -> 0 <= yrz -> yrz + Z.of_nat n <= Z.of_nat (length st) ->
+    exists st' Tv',
+      rm_loop sy (flat_map block (zrange y n) ++ rest) Tv yrz false st = rm_loop sy rest Tv' (yrz + Z.of_nat n) false st' /\
+      wf st' /\ length st' = length st /\
+      (forall j, (Z.of_nat j < yrz \/ yrz + Z.of_nat n <= Z.of_nat j) -> slot_at st' j = slot_at st j) /\
+      (forall j, yrz <= Z.of_nat j < yrz + Z.of_nat n -> year_slot st' j (y + (Z.of_nat j - yrz))).
+  Proof.
+    induction n as [|n IH]; intros y Tv yrz st rest W Hy Hz Hl.
+    - exists st, Tv. cbn [zrange flat_map app]. replace (yrz + Z.of_nat 0) with yrz by lia.
+      split; [reflexivity|]. split; [exact W|]. split; [reflexivity|]. split; [intros; reflexivity | intros; lia].
+    - cbn [zrange flat_map]. rewrite <- app_assoc. rewrite (rm_year_gen sy false y _ Tv yrz st Hy Hz). cbv zeta.
+      replace (yrz + 1 >? Z.of_nat (length st)) with false by (symmetry; rewrite Z.gtb_ltb; apply Z.ltb_ge; lia).
+      replace (yrz + 1 - 1) with yrz by lia.
+      destruct (place_year_spec st (Z.to_nat yrz) y W ltac:(lia)) as (W1 & L1 & F1 & Y1).
+      set (st1 := place_days st (Z.to_nat yrz) y 1 (Z.to_nat (ylen y))) in *.
+      destruct (IH (y + 1) (ylen y) (yrz + 1) st1 rest W1 ltac:(lia) ltac:(lia) ltac:(lia)) as (st' & Tv' & R & W' & L' & F' & Y').
+      exists st', Tv'. replace (yrz + Z.of_nat (S n)) with (yrz + 1 + Z.of_nat n) by lia.
+      split; [exact R|]. split; [exact W'|]. split; [lia|]. split.
+      + intros j Hj. rewrite F' by lia. apply F1. lia.
+      + intros j Hj. destruct (Z.eq_dec (Z.of_nat j) yrz) as [E|Hne].
+        * replace (y + (Z.of_nat j - yrz)) with y by lia.
+          assert (Ej : j = Z.to_nat yrz) by lia. subst j.
+          destruct Y1 as (A & B & C). unfold year_slot, maxd_at, cell in *.
+          rewrite (F' (Z.to_nat yrz)) by lia. repeat split; assumption.
+        * replace (y + (Z.of_nat j - yrz)) with (y + 1 + (Z.of_nat j - (yrz + 1))) by lia.
+          apply Y'. lia.
+  Qed.
+
+  (* file = days a..end of the start year, m complete years, days 1..b of the year after them *)
+  Lemma loader_places_partial_lemma none corr sy nslots a m b :
+    1 <= a <= ylen sy -> 1 <= b <= ylen (sy + 1 + Z.of_nat m) -> Z.of_nat m + 2 <= nslots ->
+    let yl := sy + 1 + Z.of_nat m in
+    let lo := fun y => if y =? sy then a else 1 in
+    let hi := fun y => if y =? yl then b else ylen y in
+    exists st,
+      read_multi none corr sy nslots
+        (recs_of sy a (Z.to_nat (ylen sy - a + 1)) ++ flat_map block (zrange (sy + 1) m) ++ recs_of yl 1 (Z.to_nat b)) = Some st /\
+      forall y, sy <= y <= yl ->
+        exists s, find_year st y = Some s /\ s_maxd s = hi y /\ length (s_cells s) = 366%nat /\
+                  forall d, lo y <= d <= hi y ->
+                    normalised none corr y d (raw y d) (nth (Z.to_nat (d - 1)) (s_cells s) wzero).
+  Proof.
+    intros Ha Hb Hn yl lo hi. unfold read_multi, new_store.
+    replace (nslots <? 0) with false by (symmetry; apply Z.ltb_ge; lia).
+    set (st0 := repeat (@empty_slot T NT) (Z.to_nat nslots)).
+    assert (W0 : wf st0) by apply wf_new.
+    assert (L0 : Z.of_nat (length st0) = nslots) by (unfold st0; rewrite repeat_length; lia).
+    assert (Hl : ylen sy <= 366) by (unfold ylen; destruct (leap sy); lia).
+    assert (Hll : ylen (sy + 1 + Z.of_nat m) <= 366) by (unfold ylen; destruct (leap (sy + 1 + Z.of_nat m)); lia).
+    (* first record *)
+    set (n0 := Z.to_nat (ylen sy - a + 1)).
+    destruct n0 as [|n0'] eqn:En0; [unfold n0 in En0; lia|].
+    unfold recs_of at 1. cbn [zrange map app rm_loop].
+    replace (sy <? sy) with false by (symmetry; apply Z.ltb_irrefl).
+    rewrite Z.eqb_refl. cbn [negb].
+    replace (1 >? Z.of_nat (length st0)) with false by (symmetry; rewrite Z.gtb_ltb; apply Z.ltb_ge; lia).
+    fold (recs_of sy (a + 1) n0'). change (Z.to_nat (1 - 1)) with 0%nat.
+    pose proof (rm_days sy n0' (a + 1) (flat_map block (zrange (sy + 1) m) ++ recs_of yl 1 (Z.to_nat b)) 1
+                        (put st0 0 sy a (raw sy a)) sy ltac:(lia) ltac:(lia)) as K.
+    replace (a + 1 - 1) with a in K by lia. rewrite K by (unfold put; rewrite length_upd_slot; lia). clear K.
+    change (Z.to_nat (1 - 1)) with 0%nat.
+    (* the store after the first year = place_days st0 0 sy a (S n0') *)
+    assert (E1 : place_days (put st0 0 sy a (raw sy a)) 0 sy (a + 1) n0' = place_days st0 0 sy a (S n0')) by reflexivity.
+    rewrite E1.
+    destruct (place_days_spec (S n0') st0 0%nat sy a W0 ltac:(lia) ltac:(lia) ltac:(unfold n0 in En0; lia)) as (W1 & L1 & F1 & J1 & C1 & _).
+    set (st1 := place_days st0 0 sy a (S n0')) in *.
+    destruct (J1 ltac:(lia)) as [J1a J1b].
+    (* complete years *)
+    destruct (rm_years_rest sy m (sy + 1) (a + Z.of_nat n0') 1 st1 (recs_of yl 1 (Z.to_nat b)) W1 ltac:(lia) ltac:(lia) ltac:(lia))
+      as (st2 & Tv2 & R2 & W2 & L2 & F2 & Y2).
+    rewrite R2.
+    (* last, partial year *)
+    set (nb := Z.to_nat b). destruct nb as [|nb'] eqn:Enb; [unfold nb in Enb; lia|].
+    unfold recs_of at 1. cbn [zrange map rm_loop].
+    replace (yl <? sy) with false by (symmetry; apply Z.ltb_ge; unfold yl; lia).
+    cbn [Z.eqb Pos.eqb negb].
+    replace (1 + Z.of_nat m + 1 >? Z.of_nat (length st2)) with false by (symmetry; rewrite Z.gtb_ltb; apply Z.ltb_ge; lia).
+    fold (recs_of yl (1 + 1) nb'). change (1 + 1) with 2.
+    pose proof (rm_days sy nb' 2 [] (1 + Z.of_nat m + 1) (put st2 (Z.to_nat (1 + Z.of_nat m + 1 - 1)) yl 1 (raw yl 1)) yl
+                        ltac:(unfold yl; lia) ltac:(lia)) as K.
+    rewrite app_nil_r in K. replace (2 - 1) with 1 in K by lia.
+    rewrite K by (unfold put; rewrite length_upd_slot; lia). clear K.
+    cbn [rm_loop].
+    set (kl := Z.to_nat (1 + Z.of_nat m + 1 - 1)).
+    assert (E3 : place_days (put st2 kl yl 1 (raw yl 1)) kl yl 2 nb' = place_days st2 kl yl 1 (S nb')) by reflexivity.
+    rewrite E3.
+    destruct (place_days_spec (S nb') st2 kl yl 1 W2 ltac:(unfold kl; lia) ltac:(lia) ltac:(unfold nb in Enb; lia)) as (W3 & L3 & F3 & J3 & C3 & _).
+    set (st3 := place_days st2 kl yl 1 (S nb')) in *.
+    destruct (J3 ltac:(lia)) as [J3a J3b].
+    eexists. split; [reflexivity|].
+    set (yrz := Z.to_nat (1 + Z.of_nat m + 1)).
+    assert (Lz : (yrz <= length st3)%nat) by (unfold yrz; lia).
+    (* every slot 0..m+1 is a part slot *)
+    assert (PS : forall j, (j < yrz)%nat -> part_slot st3 j (sy + Z.of_nat j) (lo (sy + Z.of_nat j)) (hi (sy + Z.of_nat j))).
+    { intros j Hj. unfold lo, hi.
+      destruct (Nat.eq_dec j 0) as [->|Hj0].
+      - replace (sy + Z.of_nat 0) with sy by lia. rewrite Z.eqb_refl.
+        replace (sy =? yl) with false by (symmetry; apply Z.eqb_neq; unfold yl; lia).
+        unfold part_slot, maxd_at, cell. rewrite (F3 0%nat) by (unfold kl; lia). rewrite (F2 0%nat) by lia.
+        split; [exact J1a|]. split; [unfold maxd_at in J1b; rewrite J1b; unfold n0 in En0; lia|].
+        intros d Hd. apply C1. unfold n0 in En0. lia.
+      - replace (sy + Z.of_nat j =? sy) with false by (symmetry; apply Z.eqb_neq; lia).
+        destruct (Nat.eq_dec j kl) as [->|Hjk].
+        + replace (sy + Z.of_nat kl) with yl by (unfold kl, yl; lia). rewrite Z.eqb_refl.
+          split; [exact J3a|]. split; [rewrite J3b; unfold nb in Enb; lia|].
+          intros d Hd. apply C3. unfold nb in Enb. lia.
+        + replace (sy + Z.of_nat j =? yl) with false by (symmetry; apply Z.eqb_neq; unfold yl, kl in *; lia).
+          pose proof (Y2 j ltac:(unfold yrz, kl in *; lia)) as Yj.
+          replace (sy + 1 + (Z.of_nat j - 1)) with (sy + Z.of_nat j) in Yj by lia.
+          destruct Yj as (A & B & C). unfold part_slot, maxd_at, cell in *.
+          rewrite (F3 j) by exact Hjk. repeat split; assumption. }
+    intros y Hy. set (j := Z.to_nat (y - sy)).
+    assert (Hj : (j < yrz)%nat) by (unfold j, yrz, yl in *; lia).
+    pose proof (PS j Hj) as Pj. replace (sy + Z.of_nat j) with y in Pj by (unfold j; lia).
+    assert (Hlo : 1 <= lo y) by (unfold lo; destruct (y =? sy); lia).
+    destruct (finish_part none corr yrz st3 j y (lo y) (hi y) W3 Lz Hj Hlo Pj) as (A & B & Lc & C).
+    set (stf := transform corr yrz (replace_missing none yrz st3)) in *.
+    exists (slot_at stf j). split; [|split; [exact B | split; [exact Lc | exact C]]].
+    apply find_year_nth.
+    - unfold stf. rewrite transform_length, replace_length. lia.
+    - exact A.
+    - intros j' Hj'.
+      assert (Hlo' : 1 <= lo (sy + Z.of_nat j')) by (unfold lo; destruct (sy + Z.of_nat j' =? sy); lia).
+      destruct (finish_part none corr yrz st3 j' (sy + Z.of_nat j') _ _ W3 Lz ltac:(lia) Hlo' (PS j' ltac:(lia))) as (A' & _).
+      fold stf in A'. rewrite A'. unfold j in Hj'. lia.
+  Qed.
 End WP.
